@@ -115,12 +115,19 @@ func init() {
 									c.Skip("code-exists")
 								}
 							}
-							_, e1 := shape.ConvertPointListToProjectedPointList([]*object.Point{p1}, code)
-							_, e2 := shape.ConvertProjectedPointListToPointList([]*object.ProjectedPoint{{X: 1, Y: 2, Alt: 3}}, code)
-							c.Observe("unknown %d %v %v", code, e1, e2)
+							// a valid call first, then the unknown code three times in a row in each direction: every one
+							// of them must be a conversion error (state carried between calls must not turn it into a success)
+							shape.ConvertPointListToProjectedPointList([]*object.Point{p1}, 3857)
+							shape.ConvertProjectedPointListToPointList([]*object.ProjectedPoint{{X: 1, Y: 2, Alt: 3}}, 3857)
 							c.Nontrivial(fmt.Sprint("unknown", code))
-							if e1 == nil || e2 == nil {
-								c.Violation("C18:unknown-epsg-code-accepted", map[string]any{"code": code})
+							for rep := 0; rep < 3; rep++ {
+								r1, e1 := shape.ConvertPointListToProjectedPointList([]*object.Point{p1}, code)
+								r2, e2 := shape.ConvertProjectedPointListToPointList([]*object.ProjectedPoint{{X: 1, Y: 2, Alt: 3}}, code)
+								c.Observe("unknown %d #%d %v %v", code, rep, e1, e2)
+								if e1 == nil || e2 == nil || len(r1) != 0 || len(r2) != 0 {
+									c.Violation("C18:unknown-epsg-code-accepted", map[string]any{"code": code, "repetition": rep, "forward_err": fmt.Sprint(e1), "inverse_err": fmt.Sprint(e2)})
+									break
+								}
 							}
 							return
 						}
